@@ -59,6 +59,12 @@ def tl_settings(c, role_is_client):
     kw = dict(minVersion=ver, maxVersion=ver)
     if c["kind"] == "nocommon-version" and role_is_client is not None:
         kw = dict(minVersion=(3, 1), maxVersion=(3, 1))
+    if c["kind"] == "range":
+        # everything tlslite-ng enables by default, TLS 1.0 - 1.3
+        kw = dict(minVersion=(3, 1), maxVersion=(3, 4))
+        if c["resume"]:
+            kw["ticketKeys"] = [bytearray(b"\x07" * 32)]
+        return settings(**kw)
     if m["tls13"]:
         kw["cipherNames"] = [m["cipher"]]
     else:
@@ -72,6 +78,11 @@ def tl_settings(c, role_is_client):
     if c["group"] != "default":
         kw["eccCurves"] = [c["group"]]
         kw["keyShares"] = [c["group"]]
+    if c["kind"] in ("hrr", "hrr-resume") and role_is_client is False:
+        # OpenSSL's first key share is x25519: a server with P-384 only has to send a HelloRetryRequest
+        kw["eccCurves"] = ["secp384r1"]
+        kw["keyShares"] = ["secp384r1"]
+        kw["dhGroups"] = []
     if c["resume"]:
         kw["ticketKeys"] = [bytearray(b"\x07" * 32)]
         kw["ticket_count"] = 1
@@ -96,6 +107,9 @@ def ossl_ctx(c, server_side):
         ctx.set_ciphers("ALL:@SECLEVEL=0")
     if c["group"] != "default":
         ctx.set_ecdh_curve(GROUPS[c["group"]])
+    if c["kind"] in ("hrr", "hrr-resume") and server_side:
+        # tlslite-ng's key shares are secp256r1 and x25519: an OpenSSL server with P-384 only answers with HRR
+        ctx.set_ecdh_curve("secp384r1")
     if server_side:
         from ..ossl import dh_params_file
         ctx.load_dh_params(dh_params_file(os.path.join(env.VERIF, "out", "C07")))
@@ -347,7 +361,7 @@ def flow_record(c, flow, resumed):
     kex = m["kex"]
     return {"name": "%s-%s-%d-%x" % (c["role"], c["kind"], c["ver"], c["sid"]), "role": role, "ver": c["ver"],
             "certSuite": kex not in ("DH_ANON", "ECDH_ANON") or c["ver"] == 4, "ske": kex != "RSA", "reqCert": bool(c["cauth"]),
-            "npn": False, "ticket": "NST" in flow, "resume": bool(resumed and c["ver"] < 4),
+            "npn": False, "srp": False, "pha": False, "ticket": "NST" in flow, "resume": bool(resumed and c["ver"] < 4),
             "hrr": ("HRR" in flow) or flow.count("CH") == 2, "psk": bool(resumed and c["ver"] == 4),
             "h": [t for t in flow if t not in ("APP", "ALERT", "HB")], "fl": list(range(1, len(flow) + 1))}
 
